@@ -22,6 +22,10 @@ type ClientOp struct {
 	JSON    bool             `json:"json,omitempty"`    // get: JSON encoding
 	Query   Path             `json:"query,omitempty"`   // get: path
 	Target  string           `json:"target,omitempty"`  // get
+	// get: the first Split elements of the query travel in the request prefix, the rest in the path; when nothing is left
+	// for the path the request carries no path at all, or (EmptyPath) one path without elements
+	Split     int  `json:"split,omitempty"`
+	EmptyPath bool `json:"emptyPath,omitempty"`
 }
 
 // Fault is one planned fault with its trigger.
@@ -188,6 +192,10 @@ func (g *Gen) RandDeletePath() Path {
 	// cut at a random depth >= 1 (never the root); keep list keys of kept elements
 	cut := 1 + g.pick(len(p))
 	q := append(Path{}, p[:cut]...)
+	if len(q[cut-1].Keys) > 0 && g.chance(1, 5) {
+		// the list node itself, without keys: every entry of the list
+		q[cut-1] = PElem{Name: q[cut-1].Name}
+	}
 	return q
 }
 
